@@ -746,10 +746,22 @@ func (p *InlineParser) parseDelimiterRun(state *inlineState, start int) (end int
 		node.span.End++
 	}
 
+	// The character before a delimiter run that starts a line is the preceding line ending,
+	// not the container markers that may precede the line's content in the source:
+	// flanking is judged within the current line.
+	lineStart := 0
+	if state.unparsedPos < len(state.unparsed) {
+		if s := state.unparsed[state.unparsedPos].Span().Start; s <= start {
+			lineStart = s
+		}
+	}
 	elem := delimiterStackElement{
-		flags: activeFlag | emphasisFlags(state.source, node.Span()),
-		n:     node.Span().Len(),
-		node:  node,
+		flags: activeFlag | emphasisFlags(state.source[lineStart:], Span{
+			Start: node.Span().Start - lineStart,
+			End:   node.Span().End - lineStart,
+		}),
+		n:    node.Span().Len(),
+		node: node,
 	}
 	if state.source[node.Span().Start] == '*' {
 		elem.typ = inlineDelimiterStar
